@@ -931,7 +931,7 @@ func (s *Sim) Run(stop func() bool, advanceTime bool) StopReason {
 		t.pred = nil
 		s.cur = t
 		t.started = true
-		s.sliceEnd = s.Step + 10*s.StepBudget
+		s.sliceEnd = s.Step + 2*s.StepBudget
 		t.wake <- struct{}{}
 		<-s.back
 		s.cur = nil
